@@ -105,6 +105,9 @@ def one_project(rep, rng, idx, odd_names):
     if idx % 2 == 0 or rng.random() < 0.3:
         conf_env['LDLIBS'] = '-lm'
     conf_args = rng.choice([[], ['--disable-shared', '--enable-static'], ['--enable-shared', '--disable-static'], ['--prefix=/opt/my app']])
+    # the file-copying tools are configured as `recorder cp -f` etc., so that their steps are recorded like the compiler's
+    # by all three emitters (compile_commands.json then lists the recorder as the tool of the entry)
+    conf_env.update({'CP': shtools.ARGVREC + ' cp -f', 'SYMLINK': shtools.ARGVREC + ' ln -sf', 'HARDLINK': shtools.ARGVREC + ' ln -f'})
     bad = 0
     with project.Scratch('c06') as s:
         project.write_tree(s.src, p.tree())
@@ -344,7 +347,7 @@ def declared_vs_delivered(rep, rng, idx, backend, odd_names=False):
             ntext = None
             targets = []
             for st in p.steps:
-                if st['kind'] == 'command':
+                if st['kind'] in ('command', 'shell_command'):
                     targets.append(st['name'])
                 elif st['kind'] == 'build_step':
                     targets.append(st['outputs'][0])
@@ -369,6 +372,17 @@ def declared_vs_delivered(rep, rng, idx, backend, odd_names=False):
                 elif any(r['env'].get(k) != v for r in hit[:1] for k, v in st['env'].items()):
                     bad += rep.fail('%s backend: command() environment %r is delivered as %r' % (backend, st['env'], hit[0]['env']),
                                     {'script': p.script(), 'declared_env': st['env'], 'delivered_env': hit[0]['env']})
+            elif st['kind'] == 'shell_command':
+                for want in st['procs']:
+                    hit = [r for r in recs if r['argv'] == want]
+                    rep.case('sys:%s:shcmd:%s:%r:%r' % (backend, st['name'], want, st['env']), True)
+                    if not hit:
+                        bad += rep.fail('%s backend: process %r of command %s is not started' % (backend, want, st['name']),
+                                        {'script': p.script(), 'declared': want, 'delivered': argvs[:20]})
+                    elif any(r['env'].get(k) != v for r in hit for k, v in st['env'].items()):
+                        bad += rep.fail('%s backend: environment %r of command %s reaches process %r as %r' % (
+                            backend, st['env'], st['name'], want, hit[0]['env']),
+                            {'script': p.script(), 'declared_env': st['env'], 'process': want, 'delivered_env': [r['env'] for r in hit]})
             elif st['kind'] == 'test':
                 hit = [r for r in recs if r['argv'] == st['args']]
                 rep.case('sys:%s:test:%r' % (backend, st['args']), True)
